@@ -167,6 +167,10 @@ func TestEncryption(t *testing.T) {
 			// distinct per key: the file of this key is recognised by opening to this very value
 			val := []byte(fmt.Sprintf("value-%d:", i) + g.storeValue(3000) + "|canary-plaintext-fragment-0123456789|")
 			key := fmt.Sprintf("http://a.test/enc/%d", i)
+			if i%3 == 2 {
+				// long keys are spread over a chain of directories (created on first use): 192, 300, 600 bytes
+				key += "/" + strings.Repeat("k", []int{192, 300, 600}[(i/3)%3]-len(key)-1)
+			}
 			if err := conn.Set(key, val); err != nil {
 				okAll, detail = false, "set failed"
 				break
